@@ -124,7 +124,7 @@ def main(run):
             run.violation(what, {"call": c["cmd"][:3000], "implementation": c["impl"][:3000], "model": m[:3000]})
     rng = common.Rng(run.seed)
     for i in range(10 if not run.thorough else 120):
-        if run.violations:
+        if run.concrete():
             break
         n = 2 + i % 3
         seed_state = rng.randrange(1 << 30)
